@@ -1,9 +1,13 @@
 ---------------------------- MODULE MC_Timeout ----------------------------
 (* Exhaustive configurations + scenario emission for Timeout (C19).           *)
+(* The quantifier of the property, in integer milliseconds:                    *)
+(*   (total, connect, read) over {unset, None, 0.5, 2, 10} + invalid {0, -1, True, "x"};       *)
+(*   connect durations {0, 0.3, 1, 5, 20}; pool-level / request-level placement;              *)
+(*   fresh / reused connection; sequences of 2 requests sharing one pool Timeout.             *)
 EXTENDS Timeout, Json, IOUtils, SequencesExt
 
-CONSTANTS Plan,            \* which family of configurations (see PlanConfigs)
-          ShardK, ShardS   \* emission / checking is partitioned over ShardK processes by configuration
+CONSTANTS Plans,           \* which families of configurations (see FamilyConfigs)
+          ShardK, ShardS   \* optional partition of the configurations over ShardK TLC processes
 
 Vals == {UNSET, NONE, 500, 2000, 10000}          \* the quantifier's (total, connect, read) domain
 Bad  == {0, -1000, BOOLV, STRV}                   \* 0, -1, True, "x"
@@ -11,9 +15,10 @@ Obj(t, c, r) == [kind |-> "obj", t |-> t, c |-> c, r |-> r]
 Num(n)       == [kind |-> "num", t |-> UNSET, c |-> n, r |-> UNSET]
 Omit         == [kind |-> "omit", t |-> UNSET, c |-> UNSET, r |-> UNSET]
 
-ValidObjs   == {Obj(t, c, r) : t \in Vals, c \in Vals, r \in Vals}
+Objs(V)     == [kind : {"obj"}, t : V, c : V, r : V]
+ValidObjs   == Objs(Vals)
 ValidNums   == {Num(n) : n \in {NONE, 500, 2000, 10000}}
-InvalidObjs == {Obj(t, c, r) : t \in Vals \cup Bad, c \in Vals \cup Bad, r \in Vals \cup Bad} \ ValidObjs
+InvalidObjs == {o \in Objs(Vals \cup Bad) : ~SrcValid(o)}
 InvalidNums == {Num(n) : n \in Bad}
 AllValid    == ValidObjs \cup ValidNums \cup {Omit}
 \* pool-level timeouts chosen to differ from whatever the request says (override must be total)
@@ -22,37 +27,40 @@ Contrast    == {Omit, Obj(500, 500, 500), Obj(NONE, NONE, NONE), Num(2000), Obj(
 Few         == {Obj(500, UNSET, UNSET), Obj(2000, 500, 10000), Obj(NONE, 2000, 500), Obj(10000, NONE, NONE), Num(500)}
 FewBad      == InvalidNums \cup {Obj(0, 500, 500), Obj(500, BOOLV, 500), Obj(500, 500, STRV), Obj(-1000, UNSET, UNSET)}
 
-\* the system default matters only when some effective connect/read is unset
+\* the system default (socket.getdefaulttimeout) matters only when some effective connect/read is unset
 UsesDefault(ps, rs) == \E i \in 1..Len(rs) : SrcValid(ps) /\ SrcValid(rs[i])
                           /\ (EffCfg(ps, rs[i]).c = UNSET \/ EffCfg(ps, rs[i]).r = UNSET)
 Cfgs(pss, schs, rss) ==
-    UNION {{[ps |-> ps, D |-> D, sch |-> sch, rs |-> rs] :
-               D \in IF UsesDefault(ps, rs) THEN {7000, NONE} ELSE {7000}} : ps \in pss, sch \in schs, rs \in rss}
+    {x \in [ps : pss, D : {7000, NONE}, sch : schs, rs : rss] : x.D = 7000 \/ UsesDefault(x.ps, x.rs)}
 
 Both == {"http", "https"}
-PlanConfigs ==
-    CASE Plan = "single" ->      \* one request: every (total, connect, read) at pool level and at request level
+Pairs == {<<Omit, r>> : r \in Few} \cup {<<r, Omit>> : r \in Few} \cup {<<r, q>> : r \in Few, q \in Few}
+FamilyConfigs(p) ==
+    CASE p = "pool" ->        \* one request: every (total, connect, read) at pool level
            Cfgs(AllValid, Both, {<<Omit>>})
-           \cup Cfgs(Contrast, Both, {<<r>> : r \in ValidObjs \cup ValidNums})
-      [] Plan = "invalid" ->     \* every invalid construction, at pool level and at request level
+      [] p = "request" ->     \* ... and at request level, against contrasting pool timeouts
+           Cfgs(Contrast, Both, {<<r>> : r \in ValidObjs \cup ValidNums})
+      [] p = "invalid" ->     \* every invalid construction, at pool level and at request level
            Cfgs(InvalidObjs \cup InvalidNums, {"http"}, {<<Omit>>})
            \cup Cfgs({Omit, Obj(500, 500, 500)}, {"http"}, {<<r>> : r \in InvalidObjs \cup InvalidNums})
            \cup Cfgs({Omit, Obj(2000, UNSET, 500)}, Both, {<<b, Omit>> : b \in FewBad})
-      [] Plan = "shared" ->      \* two requests sharing one pool Timeout
+      [] p = "shared" ->      \* two requests sharing one pool Timeout
            Cfgs(AllValid, {"http"}, {<<Omit, Omit>>})
-      [] Plan = "shared_https" ->
+      [] p = "shared_https" ->
            Cfgs(AllValid, {"https"}, {<<Omit, Omit>>})
-      [] Plan = "mixed" ->       \* two requests, placements mixed
-           Cfgs(Contrast, {"http"}, {<<Omit, r>> : r \in Few} \cup {<<r, Omit>> : r \in Few}
-                                     \cup {<<r, q>> : r \in Few, q \in Few})
-      [] Plan = "mixed_https" ->
-           Cfgs(Contrast, {"https"}, {<<Omit, r>> : r \in Few} \cup {<<r, Omit>> : r \in Few}
-                                     \cup {<<r, q>> : r \in Few, q \in Few})
-      [] Plan = "tiny" ->        \* sensitivity runs (Dev # {})
-           Cfgs({Obj(2000, 500, 10000), Obj(500, 2000, 2000)}, Both, {<<Omit, Omit>>, <<Obj(10000, 2000, 500)>>})
+      [] p = "mixed" ->       \* two requests, placements mixed (equal sources = the caller's same object)
+           Cfgs(Contrast, {"http"}, Pairs)
+      [] p = "mixed_https" ->
+           Cfgs(Contrast, {"https"}, Pairs)
+      [] p = "three" ->       \* three requests sharing one pool Timeout (beyond the quantifier)
+           Cfgs(Contrast \cup Few, Both, {<<Omit, Omit, Omit>>})
+      [] p = "tiny" ->        \* sensitivity runs (Dev # {})
+           Cfgs({Obj(2000, 500, 10000), Obj(500, 2000, 2000)}, Both, {<<Omit, Omit>>, <<Obj(10000, 2000, 500)>>, <<Obj(UNSET, 2000, UNSET)>>})
 
+PlanConfigs == UNION {FamilyConfigs(p) : p \in Plans}
 MCConfigSeq == SetToSeq(PlanConfigs)
-MCConfigs   == {MCConfigSeq[i] : i \in {j \in 1..Len(MCConfigSeq) : j % ShardK = ShardS}}
+MCConfigs   == IF ShardK = 1 THEN PlanConfigs
+               ELSE {MCConfigSeq[i] : i \in {j \in 1..Len(MCConfigSeq) : j % ShardK = ShardS}}
 
 MCDurations     == {0, 300, 1000, 5000, 20000}            \* the quantifier's connect durations
 MCDurationsEdge == MCDurations \cup {500, 2000, 10000}    \* + the exact "remaining = 0" boundaries
@@ -62,11 +70,19 @@ DevA   == {"noclone"}
 DevB   == {"maxconnect"}
 DevC   == {"ignoreelapsed"}
 DevD   == {"nozerocheck"}
+DevE   == {"negativeread"}
+DevF   == {"mergepool"}
+DevG   == {"noreapply"}
+PA == {"pool", "request", "invalid"}
+PB == {"shared"}
+PC == {"shared", "shared_https", "mixed", "mixed_https"}
+PD == {"three"}
+PT == {"tiny"}
 
 \* ACTION_CONSTRAINT: print every completed behaviour (configuration + environment choices + the
 \* model's expected observations) exactly once; the history is part of the state, so every
 \* terminal state is reached by exactly one path.
 Emit == (pc' = "done" /\ pc # "done") =>
             PrintT(<<"SC", ToJson([cfg |-> cfg', ctor |-> ctor', reqs |-> hist'])>>)
-NConfigs == PrintT(<<"NCONFIGS", Cardinality(PlanConfigs), Cardinality(MCConfigs)>>)
+ASSUME PrintT(<<"NCONFIGS", Cardinality(PlanConfigs), Cardinality(MCConfigs)>>)
 =============================================================================
